@@ -102,6 +102,7 @@ struct sk_kernel {
   int callno[2];           /* per side (0 parent, 1 child) count of fault points */
   struct sk_fault fault[SK_MAXFAULT]; int nfault;
   int fault_hits;
+  int gcount, gfault_index, gfault_kind; /* script-wide fault plan (see fault()) */
   int in_api;              /* driver sets around library calls */
   int cur_handle;          /* driver handle index of the API call in progress (for fork) */
   int blocks;              /* number of times a call had to block since last reset by driver */
